@@ -12,6 +12,7 @@ textbook double-layer relations in vp/edl.py; nothing is taken from the code und
   charge_potential sigma from the species, F sum(z n)/A, equals at the REPORTED potential: Gouy-Chapman with the reported MU, EPS_R,
                    TK (diffuse-layer model without explicit layer, and with a Donnan layer); C psi (constant capacitance); CD-MUSIC:
                    sigma0 = C1(psi0-psi1), sigma0+sigma1 = C2(psi1-psi2), sigma0+sigma1+sigma2 = Grahame charge at psi2       1e-8 rel
+                   (+ the solver's own criteria, see ASSUMPTIONS); -diffuse_layer (Borkovec-Westall): coarse 1e-2 Grahame clause only
   dl_balance       explicit diffuse layer (-diffuse_layer, -donnan): sum z * (moles in the layer, EDL_SPECIES) = -(surface charge)
 Nothing else is asserted.
 """
@@ -25,10 +26,11 @@ LEVEL = "exploration"
 RULE = ("Hypothesis-generated SURFACE calculations: Hfo_w/Hfo_s of phreeqc.dat, wateq4f.dat, minteq.v4.dat and generated "
         "SURFACE_MASTER_SPECIES/SURFACE_SPECIES (1-2 site types, protonation, mono-/bidentate cations, anions, species written from a "
         "non-master species, delta_h, -cd_music in 3- and 5-number form); site densities 0.05-20 /nm2 on 1-1000 m2/g x 0.01-10 g, entered "
-        "as moles or sites/nm2; pH 3-11, I 1e-4..1, 0-3 sorbing ions, 5-60 C; models -no_edl, diffuse layer, -diffuse_layer d, -donnan "
+        "as moles or sites/nm2; pH 3-11, I 1e-4..1, 0-4 sorbing ions (Ca..Pb, SO4, PO4, F, B, Si), 5-60 C; models -no_edl, diffuse layer, -diffuse_layer d, -donnan "
         "(d | debye_lengths [limit_ddl] | viscosity), -only_counter_ions, -ccm C, -cd_music (+ -donnan) with capacitances; 1-2 surfaces "
         "per SURFACE; -equilibrate and/or batch reaction with 0-3 REACTION steps; surfaces related to an equilibrium phase or a kinetic "
-        "reactant. Every selected-output row that carries a surface (i_surf, react) is checked. Non-trivial = >=3 surface species each "
+        "reactant (dissolving); in a quarter of the cases a second simulation re-uses the SAVEd surface/solution/phases under a further "
+        "REACTION. Every selected-output row that carries a surface (i_surf, react) is checked. Non-trivial = >=3 surface species each "
         "holding >=1e-9 of its site type and (|psi| > 5 mV on some surface, or -no_edl); distinct by SHA-256 of the case")
 ASSUMPTIONS = ["vp/dbparse.py + vp/formula.py read SURFACE_MASTER_SPECIES / SURFACE_SPECIES text as the PHREEQC manual defines it; the "
                "site stoichiometry of a species is the count of the site element in its formula, its charge the charge in its name",
@@ -54,7 +56,12 @@ ASSUMPTIONS = ["vp/dbparse.py + vp/formula.py read SURFACE_MASTER_SPECIES / SURF
                "+ 10 * convergence_tolerance (for Gouy-Chapman x F/area); n_i, g_i from the reported bulk and layer amounts",
                "dl_balance compares the layer's ion CONTENT (EDL_SPECIES) with the surface charge; content and excess differ by (layer "
                "water) x (bulk charge imbalance), so the clause is asserted only when that product is below a tenth of the tolerance",
-               "inputs set KNOBS -convergence_tolerance 1e-12; absolute floors: 1e-14 mol (site balance), 1e-11 C/m2 (charge laws)"]
+               "CD-MUSIC plane 0 holds the master-species charge of every site, booked by the solver with the defined site totals: its "
+               "site-balance criterion (convergence_tolerance relative, or KNOBS -tolerance 1e-15 mol absolute) enters the plane "
+               "relations as 10 F |z_master| dn / area; near zero potential the Grahame expression itself is resolved only to "
+               "sqrt(2000 eps eps0 R T 16 ulp sum c_i) (~ 5e-9 C/m2) in double precision",
+               "inputs set KNOBS -convergence_tolerance 1e-12; absolute floors: 1e-14 mol (site balance), 1e-11 C/m2 (charge laws)",
+               "kinetic reactants only dissolve (the generated solutions do not hold their elements; growth never completes)"]
 TECHNIQUE = "property-based testing (Hypothesis) against an independent reference evaluation of database text and textbook EDL relations"
 LEVEL_TEXT = ("Exploration: thousands of generated surface calculations per run over six electrostatic model classes; every site balance, "
               "every as-written mass-action equation with its electrostatic term, and every charge-potential / layer-balance relation of "
